@@ -156,6 +156,13 @@ func (ip *IPv4) SerializeTo(b gopacket.SerializeBuffer, opts gopacket.SerializeO
 		}
 	}
 
+	// what is left of the header after the options is padding; the bytes
+	// handed out by the buffer are not zeroed
+	curLocation += copy(bytes[curLocation:], ip.Padding)
+	for i := curLocation; i < len(bytes); i++ {
+		bytes[i] = 0
+	}
+
 	if opts.ComputeChecksums {
 		// Clear checksum bytes
 		bytes[10] = 0
